@@ -132,6 +132,14 @@ def gen_im_case(rng, tier):
         # the same payload under two names: different images, equal checksums
         for img in imgs[1:]:
             img["checksums"] = dict(imgs[0]["checksums"])
+    spellings = ["md5", "sha1", "sha256", "sha512"]
+    if rng.random() < 0.35:
+        # the manifest spells algorithm names the way another tool wrote them (SHA256, Md5): a name is a key - the value
+        # recorded under it is not replaced through another spelling either
+        up = {"md5": "MD5", "sha1": "Sha1", "sha256": "SHA256", "sha512": "SHA512"}
+        for img in imgs:
+            img["checksums"] = dict((up.get(k, k) if rng.random() < 0.7 else k, v) for k, v in img["checksums"].items())
+        spellings = spellings + ["MD5", "SHA256", "Sha1", "SHA512"]
     ops = [{"op": "im_init", "compose": pools.compose(rng), "version": "1.2"}]
     for i, img in enumerate(imgs):
         ops.append({"op": "img_new", "iid": i, "attrs": img})
@@ -146,7 +154,7 @@ def gen_im_case(rng, tier):
             ops.append({"op": "dump", "path": path})
             ops.append({"op": "restart", "path": path, "via": pick(rng, ["path", "handle", "loads"]), "offset": rng.randint(0, 300)})
         i = rng.randrange(len(imgs))
-        t = pick(rng, ["md5", "sha1", "sha256", "sha512"])
+        t = pick(rng, spellings)
         v = pick(rng, vals + list(imgs[i]["checksums"].values()))
         ops.append({"op": "img_add_checksum", "iid": i, "ctype": t, "value": v})
     ops.append({"op": "dumps"})
